@@ -205,6 +205,9 @@ func genFault(r *rand.Rand, allowNone bool) FaultPlan {
 
 func workerStart(workers, k int) uint64 { return uint64(k) * (math.MaxUint64 / uint64(workers)) }
 
+// comboKinds are the near-miss classes mixed into a combo batch (set per version by the generators).
+var comboKinds = []string{"zeros:-1"}
+
 // plantFinds adds specials that make workers find a qualifying nonce, according to a find plan.
 func plantFinds(r *rand.Rand, c *Config, goodKinds []string, maxBatch int) string {
 	w := c.Workers
@@ -212,7 +215,7 @@ func plantFinds(r *rand.Rand, c *Config, goodKinds []string, maxBatch int) strin
 		c.Stub.Specials = append(c.Stub.Specials, Special{workerStart(w, k) + uint64(64*batch+lane), kind})
 	}
 	lane := func() int { return pick(r, 0, 63, r.IntN(64), r.IntN(64)) }
-	plan := pick(r, "single", "single", "all-same-batch", "consecutive", "several", "first-batch-all")
+	plan := pick(r, "single", "single", "all-same-batch", "consecutive", "several", "first-batch-all", "combo", "combo")
 	switch plan {
 	case "single":
 		add(r.IntN(w), r.IntN(maxBatch), lane(), pick(r, goodKinds...))
@@ -229,6 +232,24 @@ func plantFinds(r *rand.Rand, c *Config, goodKinds []string, maxBatch int) strin
 		b := r.IntN(maxBatch)
 		for k := 0; k < w; k++ {
 			add(k, b+k%3, lane(), pick(r, goodKinds...))
+		}
+	case "combo":
+		// several crafted lanes of mixed classes in ONE batch: the order of the lanes decides which one the lane
+		// test must return (candidates that do not qualify before one that does, lanes 0 and 63 included)
+		k, b := r.IntN(w), r.IntN(maxBatch)
+		lanes := r.Perm(64)[:2+r.IntN(5)]
+		if r.IntN(2) == 0 {
+			lanes[0] = 63
+		}
+		if r.IntN(2) == 0 {
+			lanes[len(lanes)-1] = 0
+		}
+		for i, ln := range lanes {
+			kind := pick(r, comboKinds...)
+			if i == len(lanes)-1 {
+				kind = pick(r, goodKinds...)
+			}
+			add(k, b, ln, kind)
 		}
 	case "several":
 		n := 1 + r.IntN(4)
@@ -274,6 +295,7 @@ func GenC13(seed uint64, tier string) *Config {
 			k := 1 + r.IntN(60)
 			c.TargetBits = math.Float64bits(v1Target(L, k, "safe"))
 			good = []string{"zeros:+0", "zeros:+1", "zero", "zeros:+0"}
+			comboKinds = []string{"zeros:-1", "zeros:-2", "zeros:+0"}
 		} else {
 			s := 2 + r.IntN(39)
 			p := new(big.Int).Mul(ref.Pow3(s), big.NewInt(9))
@@ -284,6 +306,7 @@ func GenC13(seed uint64, tier string) *Config {
 			}
 			c.TargetBits = t.Uint64()
 			good = []string{"zeros:+0", "zeros:+1", "zero", "below", "T"}
+			comboKinds = []string{"T+1", "Q+1", "above", "zeros:-2", "below", "zeros:+0"}
 		}
 		switch x := r.IntN(10); {
 		case x < 2: // nobody ever finds
@@ -389,6 +412,7 @@ func GenC11(seed uint64, tier string) *Config {
 		for i := 0; i < 1+r.IntN(5); i++ {
 			c.Stub.Specials = append(c.Stub.Specials, Special{workerStart(c.Workers, r.IntN(c.Workers)) + uint64(64*r.IntN(nb)+pick(r, 0, 63, r.IntN(64))), "zeros:-1"})
 		}
+		comboKinds = []string{"zeros:-1", "zeros:-1", "zeros:-2", "zeros:+0"}
 		c.TargetNote += " finds:" + plantFinds(r, c, []string{"zeros:+0", "zeros:+0", "zeros:+1", "zero", "zeros:=243"}, nb)
 	} else {
 		c.Hash = "real"
@@ -469,6 +493,7 @@ func GenC12(seed uint64, tier string) *Config {
 			kind := pick(r, "T+1", "T+2", "Q", "Q+1", "above", "marginal", "zeros:-2", "zeros:-3")
 			c.Stub.Specials = append(c.Stub.Specials, Special{workerStart(c.Workers, r.IntN(c.Workers)) + uint64(64*r.IntN(nb)+lane()), kind})
 		}
+		comboKinds = []string{"T+1", "T+2", "Q", "Q+1", "above", "above", "marginal", "zeros:-2", "below", "T"}
 		c.TargetNote += " finds:" + plantFinds(r, c, []string{"T", "T-1", "below", "below", "zeros:+0", "zeros:+1", "zero", "zeros:-1"}, nb)
 		// a guaranteed clear nonce further on, in case every planted find turned out marginal / not qualifying
 		for k := 0; k < c.Workers; k++ {
